@@ -249,3 +249,26 @@ def apply_fn(ev, f, args):
             return None
     return None
 
+
+def apply_fn_summary(ev, f, args, kwargs=()):
+    """(value, events) of applying a function-valued term (closure, functools.partial of one, module-level repo function) to argument terms,
+    or None."""
+    if not isinstance(f, tuple) or not f:
+        return None
+    if f[0] == "partial":
+        return apply_fn_summary(ev, f[1], tuple(f[2]) + tuple(args), tuple(f[3]) + tuple(kwargs))
+    if f[0] == "closure":
+        r = ev.apply_closure(f, tuple(args), tuple(kwargs))
+        sm = getattr(ev, "last_closure_summary", None)
+        return None if r is None else (r, sm.events if sm is not None else [])
+    if f[0] == "name" and f[1].startswith("genjax."):
+        look = ev.p.lookup(f[1])
+        if look is None or look[0] != "func":
+            return None
+        try:
+            sm = ev.eval_funcnode(look[1], look[2], f[1], args=tuple(args), kwargs=tuple(kwargs))
+        except Exception:
+            return None
+        return sm.ret, sm.events
+    return None
+
